@@ -7,7 +7,7 @@ d="$1"; shift
 WT=/tmp/wt-seedtest
 cd /verif
 [ -d $WT ] || git -C /repo worktree add -q $WT HEAD
-git -C $WT checkout -q --detach "$(git -C /repo rev-parse HEAD)" 2>/dev/null
+git -C $WT checkout -q -f --detach "$(git -C /repo rev-parse HEAD)"
 git -C $WT checkout -- . ; git -C $WT clean -fdq
 restore() { git -C $WT checkout -- . ; git -C $WT clean -fdq; }
 trap restore EXIT
